@@ -227,11 +227,12 @@ func (x *runner) readAll(f *failer, tx database.Tx, blocks []*blk, phase string,
 			}
 		} else {
 			atomic.AddInt64(&x.beyond, 1)
-			if ph != "pending" {
-				ph = "on-disk"
+			hp := ph
+			if hp != "pending" {
+				hp = "on-disk"
 			}
 			if err == nil {
-				f.fail("region-beyond-block-succeeds|FetchBlockHeader|"+ph, "FetchBlockHeader of a block of only %d bytes succeeded and returned %d bytes", len(b.data), len(hdr))
+				f.fail("region-beyond-block-succeeds|FetchBlockHeader|"+hp, "FetchBlockHeader of a block of only %d bytes succeeded and returned %d bytes", len(b.data), len(hdr))
 			}
 		}
 		regs := boundaryRegions(len(b.data))
